@@ -21,7 +21,7 @@ TECHNIQUE = "runtime monitoring: event log on traced locks/file operations of th
 RULE = (
     "cases = schedules of short histories: 2..4 workers x 1..3 calls (evaluate with distinct and colliding subject names, "
     "make_statistic) on one shared aggregator. Controlled scheduler on threads: seeded random walk, PCT with d in {1,2,3}, "
-    "preemption-bounded systematic search (2 workers bound 2, 3 workers bound 1); noise mode (random sleeps at scheduling "
+    "preemption-bounded systematic search (2 workers bound 2, 3 workers bound 1), and the same random/PCT strategies with every source line of the aggregator / statistics modules and of shutil as an additional scheduling point (sys.monitoring); noise mode (random sleeps at scheduling "
     "points between critical sections) on threads and on forked processes (multiprocessing.Process and NonDaemonicPool as in "
     "the example script), with and without split-write injection. Every subject has its own input, so a row identifies the "
     "evaluation that produced it. Non-trivial = schedule with at least one context switch between two workers' operations; "
@@ -32,7 +32,7 @@ ASSUMPTIONS = [
     "make_statistic raising on a file without any complete row is accepted (the statement is silent about an empty table)",
     "the evaluator inside uses the serial pool substitute",
 ]
-MINIMUM = {"C16.schedules_judged": 600, "C16.process_histories_judged": 10, "C16.snapshots_judged": 100, "C16.collisions_exercised": 100}
+MINIMUM = {"C16.line_level_schedules": 50, "C16.schedules_judged": 600, "C16.process_histories_judged": 10, "C16.snapshots_judged": 100, "C16.collisions_exercised": 100}
 BUDGET_S = {"quick": 240, "thorough": 2400}
 SHARDS = {"quick": 16, "thorough": 16}
 
@@ -46,6 +46,8 @@ def cases(tier, seed):
         yield {"fam": "controlled", "i": i}
     for i in range(16 if tier == "quick" else 96):
         yield {"fam": "dfs", "i": i}
+    for i in range(128 if tier == "quick" else 2400):
+        yield {"fam": "lines", "i": i}
     for i in range(48 if tier == "quick" else 1200):
         yield {"fam": "noise_threads", "i": i}
     for i in range(32 if tier == "quick" else 1200):
@@ -251,6 +253,7 @@ def run_controlled(ctx, hist, strategy_factory, tag, split, det0):
     from vf import sched
 
     d = tempfile.mkdtemp(prefix="c16c_", dir=os.environ.get("VERIF_TMP"))
+    sched.watch_directory(d)
     sched.reset("log", split_writes=split)
     agg, ev, path = new_aggregator(d, trace_eval=True)
     results = []
@@ -477,12 +480,41 @@ def run(case, ctx):
             split = bool((i + s) % 3 == 0)
             kind = s % 4
             rr = np.random.default_rng([ctx.seed, i, s])
-            if kind == 0:
+            if kind == 0 and s % 8 == 0:
+                cs = run_controlled(ctx, hist, lambda ws: sched.focused_walk(rr), "focused", split, det0)
+            elif kind == 0 and s % 8 == 4:
+                cs = run_controlled(ctx, hist, lambda ws: sched.writer_freeze(rr), "writer_freeze", split, det0)
+            elif kind == 0:
                 cs = run_controlled(ctx, hist, lambda ws: sched.random_walk(rr), "random", split, det0)
             else:
                 cs = run_controlled(ctx, hist, lambda ws, kind=kind: sched.pct(rr, ws, kind), f"pct{kind}", split, det0)
         if i % 10 == 0:
             ctx.sample({"history": hist, "example_trace": [list(t) for t in (cs.trace[:30] if cs else [])]})
+    elif fam == "lines":
+        # line-level scheduling points (sys.monitoring): interleavings inside the module's own statements and
+        # inside stdlib helpers it calls, beyond the traced lock / open boundaries
+        if not sched.enable_line_points():
+            ctx.count("C16.line_points_unavailable")
+            return
+        try:
+            hist = make_history(r, force_workers=int(r.integers(2, 4)))
+            if i % 2 == 0:  # several statistics calls in flight after (and together with) evaluations
+                hist = {f"w{k}": [["eval", NAMES[k]], ["stat"], ["stat"] if k % 2 else ["eval", NAMES[(k + 1) % 3]]] for k in range(int(r.integers(2, 4)))}
+            for s_ in range(8):
+                rr = np.random.default_rng([ctx.seed, i, s_, 77])
+                if s_ == 0:
+                    cs = run_controlled(ctx, hist, lambda ws: sched.random_walk(rr), "lines_random", bool((i + s_) % 3 == 0), det0)
+                elif s_ in (1, 5):
+                    cs = run_controlled(ctx, hist, lambda ws: sched.focused_walk(rr), "lines_focused", bool((i + s_) % 3 == 0), det0)
+                elif s_ in (3, 4, 6, 7):
+                    cs = run_controlled(ctx, hist, lambda ws: sched.writer_freeze(rr), "lines_writer_freeze", bool((i + s_) % 3 == 0), det0)
+                else:
+                    cs = run_controlled(ctx, hist, lambda ws: sched.pct(rr, ws, 1 + s_ % 3, est_steps=600), "lines_pct", bool((i + s_) % 3 == 0), det0)
+                ctx.count("C16.line_level_schedules")
+                if cs is not None:
+                    ctx.count("C16.line_points", sum(1 for t in cs.trace if t[1] == "line"))
+        finally:
+            sched.disable_line_points()
     elif fam == "dfs":
         # preemption-bounded systematic search: 2 workers bound 2, 3 workers bound 1
         nw, bound = (2, 2) if i % 2 == 0 else (3, 1)
